@@ -212,6 +212,45 @@ func r07_3(r *Report, p *Program) {
 					ok, why = false, "a configured check is passed without establishing that the child has a condition of that type (path: "+pa.Cond()+"): a child that has not reported the condition yet lets the rollout go on"
 				}
 			}
+			// no over-constraint: a mismatch error is only possible for a field the check
+			// configures — operand *check.F behind 'check.F != nil', or Deref(check.F, observed value)
+			for _, pa := range ips {
+				rt, isR := pa.End.(*ssa.Return)
+				if !isR || !isErrReturn(rt) {
+					continue
+				}
+				for _, lt := range pa.Lits {
+					if lt.Pos || lt.Op.String() != "==" {
+						continue
+					}
+					var condSide, want ssa.Value
+					switch {
+					case strings.Contains(E(lt.X), "GetStatusCondition)(") && !strings.Contains(E(lt.Y), "GetStatusCondition)("):
+						condSide, want = lt.X, lt.Y
+					case strings.Contains(E(lt.Y), "GetStatusCondition)(") && !strings.Contains(E(lt.X), "GetStatusCondition)("):
+						condSide, want = lt.Y, lt.X
+					default:
+						continue
+					}
+					if _, isC := want.(*ssa.Const); isC && E(want) == "nil" {
+						continue
+					}
+					okW := false
+					if u, isU := want.(*ssa.UnOp); isU {
+						// *check.F: needs check.F != nil on the path
+						ptrAtom := E(u.X)
+						if pa.Has(false, func(a string) bool { return a == "("+ptrAtom+" == nil)" }) {
+							okW = true
+						}
+					}
+					if c := callOf(want); c != nil && strings.Contains(engine.CallKey(c.Common()), "ptr.Deref") && len(c.Common().Args) == 2 && engine.SameValue(c.Common().Args[1], condSide) {
+						okW = true
+					}
+					if !okW {
+						ok, why = false, "a check can fail on "+E(condSide)+" ≠ "+E(want)+" although the check may not configure that field (no '!= nil' test of the configured pointer on the path, and not Deref(configured, observed)): a healthy child whose condition has e.g. a reason would block the rollout forever"
+					}
+				}
+			}
 		} else {
 			ok, why = false, "expected exactly one loop over the configured condition checks"
 		}
@@ -487,5 +526,20 @@ func r07_6b(r *Report, p *Program) {
 			}) == nil && strings.Contains(E(engine.FieldStore(al, "Message")), "error.Error)(call(controller/composite.parentController.shouldContinueRolling)")
 			r.Check(rule, FK(f)+"[waiting⇔gate-error]", p.InstrPos(cs.Instr), okW, "RolloutWaiting exactly when the gate refuses, with its reason", "RolloutWaiting is not tied to the gate's error / does not carry its message")
 		}
+	}
+	// waiting is an outcome, not a failure: the gate's refusal is reported through the
+	// condition; returning it as the sync's error aborts the sync before revisions,
+	// children and status are reconciled, so the child it waits for is never fixed
+	for _, gate := range callsTo(f, false, ".shouldContinueRolling") {
+		gv := gate.Instr.Value()
+		w := engine.Query{Fn: f, From: []engine.Point{engine.After(gate.Instr.(ssa.Instruction))}, Target: func(in ssa.Instruction) bool {
+			rt, isR := in.(*ssa.Return)
+			if !isR {
+				return false
+			}
+			ei := engine.ErrorResultIndex(f)
+			return ei >= 0 && engine.DependsOnValue(engine.RetVal(rt, ei), gv, func(k string) bool { return strings.HasPrefix(k, "fmt.") || strings.HasPrefix(k, "errors.") })
+		}}.Find()
+		r.Check(rule, FK(f)+"[waiting-is-not-an-error]", p.InstrPos(gate.Instr), w == nil, "the gate's refusal never becomes syncRollingUpdate's error", "the gate's refusal is returned as the error of the rollout step: the sync is aborted (and retried with back-off) before ManageChildren can create/update the very child the rollout waits for")
 	}
 }
